@@ -187,7 +187,28 @@ func init() {
 			if viaSet {
 				res.obs("cases_with_inputs_through_ValueSet.Args", 1)
 			}
-			outs, _ := runScenarioX(c, s, r, reps, &res, func(in *Inst) { in.ZeroInput1 = zero + 1; in.GroupTyped = grouped; in.ViaSet = viaSet }, func(in *Inst, o *Outcome) { checkExact(in, o, false) })
+			memoFirst := r.Intn(3) == 0
+			outs, _ := runScenarioX(c, s, r, reps, &res, func(in *Inst) {
+				in.ZeroInput1 = zero + 1
+				in.GroupTyped = grouped
+				in.ViaSet = viaSet
+				if !memoFirst {
+					return
+				}
+				// history: every shared run-once distractor converter has
+				// already executed (called directly, as a target, by an
+				// earlier call); what it memoized must not shadow the exact
+				// inputs of the call under test
+				for i, cv := range in.S.Convs {
+					if cv.Once && cv.Deliver != DelRaw {
+						DoCall(in.W, in.Convs[i].Func, in.AllArgs(50+i, r))
+						res.Evals++
+						if in.W.Execs(i) > 0 {
+							res.obs("run_once_distractors_memoized_before_the_exact_call", 1)
+						}
+					}
+				}
+			}, func(in *Inst, o *Outcome) { checkExact(in, o, false) })
 			res.obs("distractor_converters", int64(len(s.Convs)))
 			res.Sample = sampleOf(s, outs)
 			return res
@@ -368,6 +389,16 @@ func init() {
 				s = sameNameUnnamed(r)
 				fam = "same-name-unnamed-types"
 			}
+			if (fam == "chain" || fam == "dag" || fam == "cycle" || fam == "layered") && len(s.Convs) >= 2 && r.Intn(4) == 0 {
+				// one link of the derivation is manufactured by a ConverterGen
+				// generator that reacts to a value the other converters introduce
+				i := r.Intn(len(s.Convs))
+				if s.Convs[i].InForm != FormBuilt && !s.Convs[i].Once {
+					s.Convs[i].Deliver = DelGen
+					fixDelivery(&s, r)
+					res.obs("cases_with_a_generated_link", 1)
+				}
+			}
 			if fam != "same-name-unnamed-types" && r.Intn(8) == 0 {
 				// same model over unnamed / mutually assignable / func / chan types
 				s = exoticize(s, r)
@@ -465,7 +496,7 @@ func init() {
 			"oracle B: the explicit-name converter ran, the type-only one did not, the target's argument comes from the explicit one. All converter forms, typed or n-named output, with/without error, shuffled order, unrelated distractors; R repetitions. " +
 			"Mode C (1 case in 5): 2-3 named target parameters n_i:U all produced through ONE type-only converter T->U, each with its own same-named input n_i:T among other named T values; oracle: parameter n_i receives the output of an execution whose argument was the input named n_i. " +
 			"Mode D (1 in 5): the type-only converter has a second type-only input W that must itself be derived from T by another converter; oracle: the T argument of the main converter is still the input named n (which T feeds the nested conversion is not prescribed). " +
-			"Mode G: a chain of two type-only converters T->M->U, each with a supplied second input; the T value converted at the bottom of the chain is still the input named n. Mode F: modes C and E combined (several named parameters through one type-only converter whose second input is supplied). Mode E: as D but the second input W is supplied directly (named 'flag', named like the parameter, or type-only), so the cheapest path may enter the converter through that argument. " +
+			"Mode H: one type-only converter with several named outputs n_i:U that are all parameters of the target; parameter n_i comes from the execution fed with the input named n_i. Mode G: a chain of two type-only converters T->M->U, each with a supplied second input; the T value converted at the bottom of the chain is still the input named n. Mode F: modes C and E combined (several named parameters through one type-only converter whose second input is supplied). Mode E: as D but the second input W is supplied directly (named 'flag', named like the parameter, or type-only), so the cheapest path may enter the converter through that argument. " +
 			"non-trivial = >= 2 competing named inputs (A, C, D, E) / both converters present (B)",
 		Assumptions: []string{"both competing converters declare the same output label (the property compares how they take their input)"},
 		Run: func(c *CaseCtx) CaseResult {
@@ -653,10 +684,33 @@ func runC07Multi(c *CaseCtx, r *rand.Rand, names []string) (res CaseResult) {
 	perm3 := r.Perm(nConcrete)
 	T, U, W := perm3[0], perm3[1], perm3[2]
 	perm := r.Perm(len(names))
-	mode := 2 + r.Intn(5)
+	mode := 2 + r.Intn(6)
 	var s Scenario
 	var wanted []string
-	if mode == 6 {
+	if mode == 7 {
+		// mode H: ONE type-only converter with SEVERAL named outputs n_i:U,
+		// two or three of them parameters of the target, one supplied n_i:T
+		// per name: every execution yields all outputs, but parameter n_i
+		// must come from the execution that was fed the input named n_i
+		np := 2 + r.Intn(2)
+		var outs []Label
+		for i := 0; i < np; i++ {
+			wanted = append(wanted, names[perm[i]])
+			outs = append(outs, Label{Name: names[perm[i]], Type: U})
+		}
+		for i := 0; i < np+r.Intn(2); i++ {
+			s.Inputs = append(s.Inputs, Label{Name: names[perm[i]], Type: T})
+		}
+		r.Shuffle(len(outs), func(a, b int) { outs[a], outs[b] = outs[b], outs[a] })
+		conv := FuncSpec{In: []Label{{Type: T}}, Out: outs, InForm: r.Intn(3), OutForm: 1 + r.Intn(2), HasErr: r.Intn(2) == 0}
+		s.Convs = []FuncSpec{conv}
+		var tin []Label
+		for _, n := range wanted {
+			tin = append(tin, Label{Name: n, Type: U})
+		}
+		r.Shuffle(len(tin), func(a, b int) { tin[a], tin[b] = tin[b], tin[a] })
+		s.Target = FuncSpec{In: tin, InForm: 1 + r.Intn(2)}
+	} else if mode == 6 {
 		// mode G: a CHAIN of two type-only converters T -> M -> U, each with
 		// a second input (the supplied flag) through which the cheapest path
 		// enters it: the T value converted at the bottom of the chain must
@@ -875,6 +929,9 @@ func runC07Multi(c *CaseCtx, r *rand.Rand, names []string) (res CaseResult) {
 					}
 					if mode == 6 {
 						key = "wrong-input-converted/chain-of-two-second-input-supplied"
+					}
+					if mode == 7 {
+						key = "wrong-input-converted/several-named-outputs"
 					}
 					res.violate("C07", key, fmt.Sprintf("parameter %v was converted from the input named %q instead of the input named %q", a.Param, got, a.Param.Name), det)
 				}
